@@ -219,6 +219,11 @@ def k_text(run, case, rng, work):
                   key="kitti:lossy")
         run.check(all(np.array_equal(np.asarray(P)[3], [0, 0, 0, 1]) for P in back.poses_se3),
                   "kitti: bottom row restored", case, "bottom row is not 0 0 0 1", key="kitti:bottom")
+        if mode in ("xyzq", "all3"):
+            # the translation column is the position the object was given (negative zeros included)
+            run.check(same_bits(T[:, :, 3], given["p"]), "kitti: translation column == the positions given to the constructor", case,
+                      "KITTI file of an object built from positions + quaternions: a coordinate changed (e.g. %r -> %r)" %
+                      _first_diff(given["p"], T[:, :, 3]), key="kitti:position-lossy")
 
 
 def _first_diff(a, b):
